@@ -437,7 +437,8 @@ def finish(prop, tier, t0, cov, violations, known, broken):
     if broken:
         for b in broken:
             vlib.log("BROKEN:", b)
-        return 2
+        if not violations:       # (what the working parts observed on the real code stands: a violation is reported even if another part broke)
+            return 2
     if violations:
         for d, path in violations[:20]:
             print("VIOLATION property=%s replay=%s" % (prop, path))
